@@ -361,9 +361,9 @@ TickP2P(gg, r) ==
                   V("C15", r.n, "frames-ahead-differs-from-the-real-lead", <<p, r.fa, lead>>))
              \o When(tsOn /\ (r.fa + gg.pr[other].fa > 2 \/ r.fa + gg.pr[other].fa < -2),
                      V("C15", r.n, "frames-ahead-of-the-two-peers-do-not-cancel", <<p, r.fa, gg.pr[other].fa>>))
-      expV == When(ok /\ ~have /\ ~gg.isSync[p],
+      expV == When(ok /\ ~have,
                    V("C16", r.n, "advanced-although-a-local-input-is-missing", <<p, pend1>>))
-              \o When(r.r = "E:InvalidRequest" /\ have /\ ~gg.isSync[p],
+              \o When(r.r = "E:InvalidRequest" /\ have,
                       V("C16", r.n, "invalid-request-although-all-local-inputs-are-registered", <<p, pend1>>))
               \o When(r.r = "E:InvalidRequest" /\ ~pe0.run /\ ~r.run /\ ~gg.isSync[p],
                       V("C16", r.n, "missing-input-reported-before-not-synchronized", <<p>>))
